@@ -22,6 +22,28 @@ CLAIMED = {
  "C14": ("proptest over initiator/worker table pairs that are identical or differ in exactly one split-relevant attribute, plus protocol faults",
          "For generated pairs (identical copy under another mount; renamed file; other row-group size; one row more/fewer; encoding change that only moves total_byte_size; dropped file; foreign digest; out-of-range shard index) execute_fragment must run and reassemble the table when the footers agree and must fail otherwise. Exploration; variants that leave the footers unchanged are discarded.",
          "Expected outcome is computed from the check's own footer reads.", "5 C14"),
+ "C05": ("proptest over generated Parquet files with tiny row groups and edge values: prune_row_groups / row_group_definitely_matches vs the engine's interpreter on the decoded rows; end-to-end Parquet vs memory differential incl. the forced streaming scan",
+         "Files of 2-12 row groups over int32/int64/double/utf8/date with NULL-only groups, NaN/-0.0/inf, |v|>2^53, non-ASCII and truncated-statistics strings, statistics disabled per column; predicates from comparisons/BETWEEN/IN/NOT/AND/OR with literals of every handled type on either side. No pruned row group may hold a row the interpreter keeps; every 'definitely matches' row group must satisfy the predicate on all rows (also under an independent 3VL over the interpreter's atoms); SELECT and aggregates over Parquet must equal the memory registration. Exploration.",
+         "The interpreter (evaluate_expr) is the semantic reference, as the property says 'enabling skipping never changes the answer'.", "5 C05"),
+ "C06": ("proptest over predicates generated inside the compiled subset and batches with special values/lengths/slices: CompiledPredicate::evaluate vs evaluate_expr bit for bit; QE_COMPILE=0 vs default in sub-process workers",
+         "Predicates over F64/I64/I32/Date32 columns (arithmetic, comparisons, AND/OR/NOT, BETWEEN, register pressure around MAX_REGS, four name-qualification modes) on batches of lengths 0..3000+ around the 1024 chunk boundary with NULL/NaN/-0.0/inf and per-column slice offsets: validity equal at every row, value equal at every valid row; 40 end-to-end cases compare row sets between a QE_COMPILE=0 worker and a default worker (FilterExec, ctx.sql over memory and Parquet). Exploration.",
+         "compile()==None cases are counted as trivial.", "5 C06"),
+ "C15": ("stateful/model-based proptest: generated histories of discovery, probe and resolve-error operations stepped against a reference model with invariants after every step",
+         "Histories of <=40 operations over an 11-address universe (self, localhost / [::1] / local-interface aliases, port-only differences, peers, duplicates, an unresolvable name): members sorted and unique, exactly one self never listed as peer, peer set equal to the model, resolve errors change nothing, generation monotone and strictly increasing on a set change, equal-set re-resolution keeps every peer record, resolved() sticky. Exploration.",
+         "'Is this me' is decided independently of the engine via bind() locality and name resolution of the sandbox.", "5 C15"),
+ "C16": ("proptest-generated byte streams through the real socket path (scripted loopback peer: truncation point, write chunking, close or stall) and through parse_response directly; framing oracle computed from the bytes actually sent",
+         "Generated responses (status-line variants, headers, Content-Length correct/missing/wrong/repeated/unparseable, bodies to 16 KiB) cut anywhere and delivered in generated chunks then closed or stalled: the client returns Err, or Ok with the sent status, headers and the complete body - never a body shorter than every plain Content-Length, never a panic, and within timeout + slack. Exploration; the thorough tier adds a libFuzzer target on parse_response.",
+         "Stall cases use a 150 ms client timeout and allow 15 s slack on a loaded box.", "5 C16"),
+ "C18": ("proptest over generated multi-file Parquet tables with per-column/per-file statistics levels: statistics() vs the written rows",
+         "Tables of 1-4 files with any row-group layout, NULL density 0/30/100 %, Int32/Int64/Date32 extremes, statistics none/chunk/page per column and file: row_count exact, null_count==Some(n) => n true, min_i64/max_i64 bound every value. Exploration. (That estimates never decide an answer is covered by the optimizer differential C03.)",
+         "The written rows are the reference; scan() row count must agree with them.", "5 C18"),
+ "C33": ("generated and exhaustively enumerated schedules: a token-passing controller owns the interleaving at every atomic step of the pool (verif-hooks yield points); sequential reference stepped at linearisation points",
+         "2-3 logical threads with programs of <=4 operations (try_allocate/allocate/resize/drop) on a small-limit pool: for program pairs the complete schedule space is enumerated by DFS (2,370 pairs quick / 38,226 thorough), 20,000 random schedules beyond, cross-checked against real OS threads and a 16-thread un-hooked stress run. Every granted try_allocate fitted, used() equals the sum of live reservations after every operation, zero after all drops, never wraps. Exhaustive for the stated small bound, exploration beyond; weak-memory reorderings are not modelled (one atomic location).",
+         "Schedules are run as coroutines on one OS thread (same decision code as the OS-thread back end, cross-checked decision for decision).", "5 C33"),
+ "C41": ("proptest round-trip over generated bodies x chunkings (extensions, hex case, trailers, boundaries inside CRLF), planted framing faults judged by an independent strict RFC 7230 reader, arbitrary token soup under catch_unwind, end-to-end through a scripted chunked server",
+         "dechunk(encode(body, chunking)) == body for generated bodies up to 64 KiB; ten kinds of planted malformation must be rejected; arbitrary bytes incl. sizes beyond usize::MAX never panic; GravitinoSource::list_filesets decodes a chunked reply. Exploration; the thorough tier adds a libFuzzer target.",
+         "Inputs the strict reader calls 'lenient' (accepted by tolerant decoders) are not judged.", "5 C41"),
+
  "C29": ("generated / damaged / hostile / harvested SQL executed in crash-isolating worker sub-processes with a panic hook and a two-stage watchdog",
          "Every statement (grammar-generated, token-damaged, deeply nested or oversized, and all 800 SQL strings harvested from the repository plus TPC-H Q1-22, plain and damaged) runs in a long-lived worker process against generated tables plus TPC-H SF 0.001; the oracle is: an Ok or Err reply - never a panic (reported with message and location), never a dead worker (signal), never silence (10 s, then 90 s alone in a fresh process). Exploration; the whole harvested corpus is replayed exhaustively on every run.",
          "Hangs are judged by wall clock only after a 90 s solo confirmation on tiny tables; panics that only exist in overflow-checked builds are still panics of the build the repository tests.", "5 C29"),
